@@ -18,6 +18,7 @@ import DSymVerif.Proofs.SimplifyCollapse
 import DSymVerif.Proofs.SimplifySteps
 import DSymVerif.Proofs.SimplifySkeleton
 import DSymVerif.Proofs.SimplifyManifold
+import DSymVerif.Proofs.SimplifyOriented
 import DSymVerif.Proofs.FundGroupInnerFaces
 
 namespace DSymVerif.C16
@@ -446,7 +447,7 @@ theorem collapse_preserves_far_differ {ds s : DSetData} {num : Nat → Nat} {rem
 theorem cut_face_preserves_manifold {ds s : DSetData} (hm : Manifold3 ds)
     {d1 d2 : Nat} (h11 : 1 ≤ d1) (h12 : d1 ≤ ds.size) (h21 : 1 ≤ d2) (h22 : d2 ≤ ds.size)
     (h : cutFace ds d1 d2 = .ok s) : Manifold3 s :=
-  let ⟨a, _, c, _, _, f, l, g⟩ := cutFace_commutes hm.1.1 hm.1.2.1 h11 h12 h21 h22 h
+  let ⟨a, _, c, _, _, f, l, g, _⟩ := cutFace_commutes hm.1.1 hm.1.2.1 h11 h12 h21 h22 h
   ⟨⟨a, c, f hm.1.2.2⟩, l hm.2.1, g hm.2.2⟩
 
 example : Manifold3 ex8 ∧ ∃ s, cutFace ex8 1 2 = .ok s :=
@@ -502,5 +503,97 @@ example : Manifold3 exFacets20 ∧ (∃ s, mergeFacets (.dset exFacets20) = .ok 
    manifold3B_sound (by decide +kernel), returnsDSet_exists (by decide +kernel),
    manifold3B_sound (by decide +kernel), returnsDSet_exists (by decide +kernel)⟩
 
+
+/-! ### orientation as an invariant; `fix_non_disk_face` without a general-position hypothesis
+
+`OM ds` = `Manifold3 ds` ∧ the D-set is oriented (a 2-colouring of the chambers reversed by every
+operation; the inputs of the property — pseudo-toroidal covers are built on the oriented cover; the finite
+quotients explored are oriented as well — are oriented).  Orientation is what makes the guards of the code
+imply general position: on loopless far-commuting far-differing D-sets that are NOT orientable the
+real `fix_local_2_vertex` panics or leaves the manifold clauses, and `fix_non_disk_face` meets
+coinciding chambers (exhaustive experiment on all such D-sets with 4, 8 and 12 chambers; outside
+the domain of the property). -/
+
+/-- ○ **No face is glued to itself**: in an oriented D-set whose far operations commute and differ,
+    `s_3 x` never lies in the (0,1)-orbit of `x` (an element of the face orbit of opposite colour is
+    an odd alternating word in s0, s1 applied to x, and such a word is conjugate to s0 or s1, which
+    differ from s3 everywhere). -/
+theorem face_never_glued_to_itself {ds : DSetData} (hm : Manifold3 ds) {col : Nat → Bool} (hcol : Colouring ds col)
+    {x : Nat} (h1 : 1 ≤ x) (h2 : x ≤ ds.size) : ¬ ds.viewPartial.Reach [0, 1] x (ds.opU 3 x) :=
+  face_not_self_glued hm.1.1 hm.1.2.1 hm.1.2.2 hm.2.2 hcol h1 h2
+
+/-- ○ **`fix_non_disk_face` keeps the manifold clauses and the orientation — no hypothesis beyond
+    those on the input.**  The guards the code evaluates (e ≠ d on the walk around the vertex of d,
+    same face as d) imply that the eight chambers of the corner re-gluing are pairwise distinct
+    (`corner_distinct`: different colours, differing far operations, and `face_never_glued_to_itself`
+    for the one remaining coincidence e = s3 s1 d). -/
+theorem fix_non_disk_face_preserves_manifold {ds s : DSetData} (hm : OM ds)
+    (h : fixNonDiskFace (.dset ds) = .ok (some (.dset s))) : OM s :=
+  fixNonDiskFace_OM hm h
+
+/-- `exFnd` (a state on which the real `fix_non_disk_face` fires) is an oriented manifold D-set -/
+example : OM exFnd ∧ ∃ s, fixNonDiskFace (.dset exFnd) = .ok (some (.dset s)) :=
+  ⟨⟨manifold3B_sound (by decide +kernel),
+    fun d => (#[false, false, true, false, false, false, false, true, false, false, true, true, false, true, true, false, false, true, true, true, true, true, false, false, true, true, false, false, true, false, true, true, false] : Array Bool).getD d false,
+    colouringB_sound (by decide +kernel)⟩, returnsDSet_exists (by decide +kernel)⟩
+
+/-- ○ **`simplify_step_preserves_oriented_manifold`.**  Every modelled deterministic step maps an
+    oriented, complete, loopless 3-dimensional D-set whose far operations commute and differ to one
+    again: `merge_tiles`, `merge_facets`, `dual`, `merge_all`, `fix_non_disk_face` without further
+    hypothesis; `fix_local_1_vertex` and `fix_local_2_vertex` when the eight chambers they re-glue are
+    distinct (this is NOT implied by their guards on arbitrary D-sets of this kind: with faces of one
+    or two edges the chambers coincide — the real code then still returns a D-set satisfying the
+    clauses in the exhaustive experiment, which is not proved). -/
+theorem simplify_step_preserves_oriented_manifold {ds s : DSetData} (hm : OM ds) :
+    (mergeTiles (.dset ds) = .ok (some (.dset s)) → OM s) ∧
+    (mergeFacets (.dset ds) = .ok (some (.dset s)) → OM s) ∧
+    (Simp.dual (.dset ds) = .ok (some (.dset s)) → OM s) ∧
+    (mergeAll (.dset ds) = .ok (some (.dset s)) → OM s) ∧
+    (fixNonDiskFace (.dset ds) = .ok (some (.dset s)) → OM s) ∧
+    (fixLocal1Vertex (.dset ds) = .ok (some (.dset s)) →
+      (∀ c, 1 ≤ c → c ≤ ds.size → fixLocal1Body ds c = .ok (some (.dset s)) →
+        [ds.opU 0 (ds.opU 1 c), ds.opU 1 (ds.opU 1 (ds.opU 0 c)), ds.opU 1 (ds.opU 0 c),
+          ds.opU 1 (ds.opU 0 (ds.opU 1 c)), ds.opU 3 (ds.opU 0 (ds.opU 1 c)),
+          ds.opU 1 (ds.opU 3 (ds.opU 1 (ds.opU 0 c))), ds.opU 3 (ds.opU 1 (ds.opU 0 c)),
+          ds.opU 1 (ds.opU 3 (ds.opU 0 (ds.opU 1 c)))].Nodup) → OM s) ∧
+    (fixLocal2Vertex (.dset ds) = .ok (some (.dset s)) →
+      (∀ d ds' a b, 1 ≤ d → d ≤ ds.size → fix2Pre ds d = .ok (ds', a, b) →
+        [ds'.opU 0 b, a, ds'.opU 0 a, b, ds'.opU 2 (ds'.opU 0 b), ds'.opU 2 a, ds'.opU 2 (ds'.opU 0 a),
+          ds'.opU 2 b].Nodup) → OM s) :=
+  ⟨fun h => mergeTiles_OM hm (DSymVerif.FGP.innerWallsAreFaces ds hm.1.1) h,
+   fun h => mergeFacets_OM hm h,
+   fun h => dual_OM hm h,
+   fun h => mergeAll_OM DSymVerif.FGP.innerWallsAreFaces hm h,
+   fun h => fixNonDiskFace_OM hm h,
+   fun h hnd => fixLocal1Vertex_OM hm hnd h,
+   fun h hnd => fixLocal2Vertex_OM hm hnd h⟩
+
+
+/-! ### sphericity preservation: precise statements (open)
+
+`Spherical ds`: every {0,1,2}- and {1,2,3}-component has F − E + V = 2 on the orbit counts
+(`chiOf`).  Together with `OM` this is the whole first clause of the property.  Not proved for any
+step: it needs the orbit counts of the affected components before and after (for `merge_facets`:
+two faces of a tile merge, F' = F − 1, E' = E − 1 in each tile around the edge, the vertex figures at
+its two ends lose a digon; for `merge_tiles`: two tiles glued along a face, χ' = χ1 + χ2 − 2, or a
+handle if the two sides are the same tile — which the sphericity of the vertex figures must
+exclude; …), i.e. component tracking under `collapse` plus cycle counting (`Proofs/PermRee.lean` has
+the ±1 lemma for transpositions).  Evidence instead: the Spec evaluates `Spherical` (its
+`partsAreSpheres`) on every D-set `simplify` returns, and in an experiment with the hooks every
+single step of the replayed pipeline on the corpus and the [p,2,q] lens spaces kept it. -/
+
+/-- ◐ open: `merge_facets` keeps tiles and vertex figures spherical -/
+def merge_facets_preserves_sphericity_statement : Prop :=
+  ∀ ds s : DSetData, OM ds → Spherical ds → mergeFacets (.dset ds) = .ok (some (.dset s)) → Spherical s
+
+/-- ◐ open: `merge_tiles` keeps tiles and vertex figures spherical -/
+def merge_tiles_preserves_sphericity_statement : Prop :=
+  ∀ ds s : DSetData, OM ds → Spherical ds → mergeTiles (.dset ds) = .ok (some (.dset s)) → Spherical s
+
+/-- ◐ open: the local moves keep tiles and vertex figures spherical -/
+def local_moves_preserve_sphericity_statement : Prop :=
+  ∀ ds s : DSetData, OM ds → Spherical ds →
+    (fixLocal1Vertex (.dset ds) = .ok (some (.dset s)) ∨ fixLocal2Vertex (.dset ds) = .ok (some (.dset s)) ∨
+      fixNonDiskFace (.dset ds) = .ok (some (.dset s))) → Spherical s
 
 end DSymVerif.C16
